@@ -300,19 +300,19 @@ fn c02_history_4_g<const BASE: i32>() {
 
 // ---- instances: low edge, high edge, seed-chosen window
 #[kani::proof]
-#[kani::unwind(5)]
+#[kani::unwind(6)]
 fn c02_register_step_low() {
     c02_register_step_g::<LOW>();
 }
 
 #[kani::proof]
-#[kani::unwind(5)]
+#[kani::unwind(6)]
 fn c02_register_step_high() {
     c02_register_step_g::<HIGH>();
 }
 
 #[kani::proof]
-#[kani::unwind(5)]
+#[kani::unwind(6)]
 fn c02_register_step_mid() {
     c02_register_step_g::<MID>();
 }
@@ -360,40 +360,40 @@ fn c02_ack_order_independent_mid() {
 }
 
 #[kani::proof]
-#[kani::unwind(5)]
+#[kani::unwind(6)]
 #[kani::stub(alloc::fmt::format, no_format)]
 fn c02_nak_and_srtla_ack_step_low() {
     c02_nak_and_srtla_ack_step_g::<LOW>();
 }
 
 #[kani::proof]
-#[kani::unwind(5)]
+#[kani::unwind(6)]
 #[kani::stub(alloc::fmt::format, no_format)]
 fn c02_nak_and_srtla_ack_step_high() {
     c02_nak_and_srtla_ack_step_g::<HIGH>();
 }
 
 #[kani::proof]
-#[kani::unwind(5)]
+#[kani::unwind(6)]
 #[kani::stub(alloc::fmt::format, no_format)]
 fn c02_nak_and_srtla_ack_step_mid() {
     c02_nak_and_srtla_ack_step_g::<MID>();
 }
 
 #[kani::proof]
-#[kani::unwind(5)]
+#[kani::unwind(6)]
 fn c02_reset_step_low() {
     c02_reset_step_g::<LOW>();
 }
 
 #[kani::proof]
-#[kani::unwind(5)]
+#[kani::unwind(6)]
 fn c02_reset_step_high() {
     c02_reset_step_g::<HIGH>();
 }
 
 #[kani::proof]
-#[kani::unwind(5)]
+#[kani::unwind(6)]
 fn c02_reset_step_mid() {
     c02_reset_step_g::<MID>();
 }
